@@ -101,6 +101,7 @@ func NatList(xs []int) string {
 
 // Model is a running Lean model driver speaking one line in / one line out.
 type Model struct {
+	dead  bool // -nomodel: the driver could not be built; every answer is "model-unavailable"
 	cmd   *exec.Cmd
 	in    *bufio.Writer
 	out   *bufio.Reader
@@ -127,6 +128,9 @@ func StartModel(path string, args ...string) (*Model, error) {
 
 // Ask sends one request line and returns the response line (without newline).
 func (m *Model) Ask(line string) string {
+	if m.dead {
+		return ModelUnavailable
+	}
 	if strings.ContainsAny(line, "\n\r") {
 		panic("newline in request: " + line)
 	}
@@ -147,7 +151,7 @@ func (m *Model) Ask(line string) string {
 }
 
 func (m *Model) Close() {
-	if m == nil || m.cmd == nil {
+	if m == nil || m.dead || m.cmd == nil {
 		return
 	}
 	m.in.Flush()
@@ -162,6 +166,11 @@ func (m *Model) Close() {
 		m.cmd.Process.Kill()
 	}
 }
+
+// ModelUnavailable is what a dead model answers (bin/check passes -nomodel when the Lean driver
+// no longer builds, e.g. because a translator fact could not be regenerated): the harness still
+// runs the property's own oracle on the implementation; model comparisons are skipped.
+const ModelUnavailable = "model-unavailable"
 
 // ---------------------------------------------------------------- report
 
@@ -214,6 +223,7 @@ type Env struct {
 	Replay   string
 	Corpus   string
 	Search   bool // search mode: larger, property-oracle-directed budget
+	NoModel  bool // the Lean driver is unavailable: oracle only
 	Scratch  string
 	Rng      *Rng
 	Rep      *Report
@@ -230,8 +240,9 @@ func Init(harness, property string) *Env {
 	corpus := flag.String("corpus", "", "corpus directory (minimised past failures, run first)")
 	search := flag.Bool("search", false, "search mode (after a broken proof/correspondence)")
 	scratch := flag.String("scratch", "", "scratch directory (removed by bin/check)")
+	nomodel := flag.Bool("nomodel", false, "the Lean driver is unavailable: run the property oracle only")
 	flag.Parse()
-	e := &Env{Seed: *seed, Tier: *tier, ModelBin: *model, Replay: *replay, Corpus: *corpus, Search: *search, Scratch: *scratch}
+	e := &Env{Seed: *seed, Tier: *tier, ModelBin: *model, Replay: *replay, Corpus: *corpus, Search: *search, Scratch: *scratch, NoModel: *nomodel}
 	e.Rng = NewRng(*seed)
 	e.Rep = &Report{Harness: harness, Property: property, Seed: *seed, Tier: *tier, Histogram: map[string]int{},
 		seen: map[[32]byte]struct{}{}, start: time.Now(), path: *report,
@@ -268,6 +279,10 @@ func (e *Env) N(quick, thorough int) int {
 }
 
 func (e *Env) MustModel(args ...string) *Model {
+	if e.NoModel {
+		e.Rep.Note("model driver unavailable (-nomodel): oracle-only run")
+		return &Model{dead: true}
+	}
 	if e.ModelBin == "" {
 		fmt.Fprintln(os.Stderr, "harness: -model required")
 		os.Exit(2)
@@ -303,6 +318,10 @@ func (r *Report) Sample(s any) {
 }
 
 func (r *Report) Disagree(c any, impl, model, note string) {
+	if strings.Contains(model, ModelUnavailable) || strings.Contains(impl, ModelUnavailable) {
+		r.Histogram["model-unavailable"]++
+		return
+	}
 	r.DisagreementsTotal++
 	if len(r.Disagreements) < 20 {
 		r.Disagreements = append(r.Disagreements, Disagreement{c, impl, model, note})
